@@ -116,3 +116,25 @@ Proof.
   split; [exact H1|split; [exact H2|split; [exact check_tx_frame|exact commit_frame]]].
 Qed.
 Print Assumptions C09_translated_frame_agrees.
+
+(* On the code as translated on this run (Generated/VotingFuns.v, from app/voting.go):
+   Voting.outcomeIndex and Voting.Outcome answer the same for every iteration order of the
+   Votes map - the place where replicas diverged before the fix: commit (the translator
+   refuses a range over the local tally map, and an early return inside a range over Votes
+   would break these equalities) - they are the model's functions, and Outcome never indexes
+   Candidates out of range. *)
+From Verif Require Import Generated.VotingFuns Proofs.VotingFuns.
+Theorem C09_translated_outcome_order_free :
+  (forall (T : Type) (v : voting T) e1 e2 req, Permutation e1 e2 ->
+     gen_outcome_index v e1 req = gen_outcome_index v e2 req /\ gen_outcome v e1 req = gen_outcome v e2 req) /\
+  (forall (T : Type) (enum : enumerator) (v : voting T) req,
+     gen_outcome_index v (enum _ (v_votes v)) req = outcome_index enum v req /\
+     gen_outcome v (enum _ (v_votes v)) req = outcome enum v req) /\
+  (forall (T : Type) (v : voting T) e req, gen_outcome v e req <> Some None).
+Proof.
+  split; [|split].
+  - intros T v e1 e2 req Hp. split; [apply gen_outcome_index_order_free|apply gen_outcome_order_free]; exact Hp.
+  - intros T enum v req. split; [apply gen_outcome_index_agrees|apply gen_outcome_agrees].
+  - intros T v e req. apply gen_outcome_no_panic.
+Qed.
+Print Assumptions C09_translated_outcome_order_free.
